@@ -1835,6 +1835,83 @@ func (h *vC09H) scenario(kind string) {
 		h.restart(anchors)
 		h.run(h.honest(), vC09Faults{})
 
+	case "dualfail":
+		// a revocation is accepted while NEITHER file can be replaced: the trust set must be EMPTY afterwards
+		// (fail closed — the disk still says Valid), and the same process stays that way through refreshes that
+		// cannot re-establish it (failed fetch, unsigned / forged response, a refresh whose writes fail again),
+		// whatever the stale disk would republish; it recovers only through a run that records something.
+		na := 2 + r.Intn(2)
+		anchors := make([]vC09Sym, na)
+		for i := range anchors {
+			anchors[i] = h.fresh(&next)
+		}
+		h.pub = append([]vC09Sym(nil), anchors...)
+		h.start(anchors)
+		h.run(h.honest(), vC09Faults{})
+		victim := anchors[r.Intn(na)]
+		if r.Intn(4) == 0 {
+			gone := anchors[r.Intn(na)] // the victim or another anchor is Missing when the revocation arrives
+			h.unpublish(gone)
+			h.run(h.honest(), vC09Faults{})
+			if r.Intn(2) == 0 {
+				h.advance(h.pickAdvance())
+			}
+		}
+		h.revoke(victim)
+		fe := h.honest()
+		switch r.Intn(4) {
+		case 0:
+			fe = h.signedBy(vC09Rev(victim)) // accepted in revocation-only mode
+		case 1:
+			for i := range fe.sigs {
+				if fe.sigs[i].signer != vC09Rev(victim) {
+					fe.sigs[i].bad = true
+				}
+			}
+		}
+		h.run(fe, vC09Faults{twrite: true, swrite: true})
+		follow := 1 + r.Intn(3)
+		for i := 0; i < follow; i++ {
+			fl := vC09Faults{}
+			switch r.Intn(5) {
+			case 0:
+				fl = vC09Faults{twrite: true, swrite: true}
+			case 1:
+				fl = h.pickFaults()
+			}
+			switch r.Intn(7) {
+			case 0, 1: // the fetch fails
+				fe := h.honest()
+				fe.drop = true
+				h.run(fe, fl)
+			case 2: // unsigned
+				fe := h.honest()
+				fe.sigs = nil
+				h.run(fe, fl)
+			case 3: // every signature broken
+				fe := h.honest()
+				for j := range fe.sigs {
+					fe.sigs[j].bad = true
+				}
+				h.run(fe, fl)
+			case 4: // the zone has dropped the revoked key meanwhile (nothing on record can hold it back)
+				h.unpublish(vC09Rev(victim))
+				h.run(h.honest(), fl)
+			case 5: // the generic response mix
+				h.run(h.pickFetch(&next), fl)
+			default: // the revocation is presented again
+				h.run(h.honest(), fl)
+			}
+			if r.Intn(4) == 0 {
+				h.advance(h.pickAdvance())
+			}
+		}
+		if r.Intn(2) == 0 {
+			h.restart(anchors)
+		}
+		h.run(h.honest(), vC09Faults{})
+		h.run(h.honest(), vC09Faults{})
+
 	case "dualflags":
 		// one public key tracked under two flags values (two key tags, two anchor-table entries of one
 		// key material): configured and published, configured only (goes Missing, still trusted) or
@@ -2114,6 +2191,8 @@ var vC09Kinds = []struct {
 	{"dualflags", 5, "", "hist"},
 	// several REVOKE-flagged anchors in one response, only a subset self-signed (seeded change C09-10)
 	{"multirev", 12, "", "hist"},
+	// a revocation accepted while neither file can be replaced, and what the same process does afterwards (seeded change C09-11)
+	{"dualfail", 8, "", "hist"},
 }
 
 func TestVerifC09AutoTA(t *testing.T) {
